@@ -64,7 +64,13 @@ pub fn path(req: Value) -> Value {
         let n = NormalizedPathBuf::new(PathBuf::from(&p));
         let s = n.to_string_lossy().to_string();
         let again = NormalizedPathBuf::new(n.to_path_buf());
-        json!({"norm": s, "again": again.to_string_lossy().to_string(), "eq_again": again == n})
+        // `key` is a canonical representative of NormalizedPathBuf equality (PathBuf compares component-wise)
+        let key: Vec<String> = n
+            .as_path()
+            .components()
+            .map(|c| c.as_os_str().to_string_lossy().to_string())
+            .collect();
+        json!({"norm": s, "key": key, "again": again.to_string_lossy().to_string(), "eq_again": again == n})
     })
 }
 
